@@ -1,6 +1,7 @@
 #!/bin/bash
 # tools/try_mutant.sh <seeded dir> <check ids...> : apply the stored patch to /repo, run the quick checks, undo the patch
 cd "$(dirname "$0")/.."
+export VERIF_EVIDENCE_DIR="$PWD/out/evidence-scratch"   # runs with a seeded change never overwrite evidence/
 D=$1; shift
 if ! git -C /repo diff --quiet; then echo "/repo has uncommitted changes - abort"; exit 2; fi
 git -C /repo apply "$PWD/$D/patch.diff" || exit 2
